@@ -70,6 +70,7 @@ pub struct WebSocketFramed<T, C, E, D> {
     encode_item: PhantomData<E>,
     decode_item: PhantomData<D>,
     buffer: Option<BytesMut>,
+    close_queued: bool,
 }
 
 impl<T, C, E, D> Unpin for WebSocketFramed<T, C, E, D> {}
@@ -80,7 +81,7 @@ where
     C: Encoder<E, Error = anyhow::Error> + Decoder<Item = D, Error = anyhow::Error> + Unpin,
 {
     pub fn new(stream: WebSocketStream<T>, codec: C) -> Self {
-        Self { stream, codec, encode_item: PhantomData, decode_item: PhantomData, buffer: None }
+        Self { stream, codec, encode_item: PhantomData, decode_item: PhantomData, buffer: None, close_queued: false }
     }
 }
 
@@ -148,9 +149,14 @@ where
     }
 
     fn poll_close(mut self: Pin<&mut Self>, cx: &mut Context<'_>) -> Poll<Result<(), Self::Error>> {
-        // the websocket close handshake waits for the peer before it flushes; push out what is still queued first
-        ready!(self.stream.poll_flush_unpin(cx)).map_err(|e| anyhow!(e))?;
-        self.stream.poll_close_unpin(cx).map_err(|e| anyhow!(e))
+        // Send the close frame ourselves instead of running the websocket close handshake: that handshake reads and
+        // discards incoming messages until the peer answers, stealing data from the read half of this split stream
+        // (the other pump then delivers later messages without the earlier ones), and it only flushes afterwards.
+        if !self.close_queued {
+            self.close_queued = true;
+            let _ = self.stream.start_send_unpin(tokio_websockets::Message::close(None, ""));
+        }
+        self.stream.poll_flush_unpin(cx).map_err(|e| anyhow!(e))
     }
 }
 
